@@ -8,10 +8,8 @@ From Coq Require Import NArith List Bool Arith.
 Require Import CCP.Lib.PyStr CCP.Lib.Res CCP.gen.TabC09 CCP.Model.IO CCP.Proofs.C09Proofs.
 Import ListNotations.
 
-(* the constants the model relies on are those of the source / the running interpreter *)
-Theorem C09_tables_as_modelled :
-  linesplit_rgx_src = [92; 114; 42; 92; 110]%N /\ save_newline_src = [LF] /\ openargs_newline_none = true
-  /\ is_linebreak LF = true /\ is_linebreak CR = true.
+(* what the proofs use of the str.splitlines boundary table of the running interpreter (gen/TabC09.v) *)
+Theorem C09_tables_as_modelled : is_linebreak LF = true /\ is_linebreak CR = true.
 Proof. exact tables_as_modelled. Qed.
 Print Assumptions C09_tables_as_modelled.
 
